@@ -90,8 +90,9 @@ Definition mk_so (t : otables) : stf_oracle :=
      so_liq_denom := fun c => look N.eqb c (ot_liq t) MISSING;
      so_header_hash := fun h => look header_eqb h (ot_hdr t) MISSING;
      so_melpow := fun pid seed ck d =>
-       look (fun a b => let '(a1, a2, a3, a4) := a in let '(b1, b2, b3, b4) := b in
-                        (a1 =? b1) && (a2 =? b2) && (a3 =? b3) && (a4 =? b4)) (pid, seed, ck, d) (ot_melpow t) 0;
+       match look (fun a b => let '(a1, a2, a3, a4) := a in let '(b1, b2, b3, b4) := b in
+                        (a1 =? b1) && (a2 =? b2) && (a3 =? b3) && (a4 =? b4)) (pid, seed, ck, d) (ot_melpow t) 0 with
+       | 1 => VLegacy | 2 => VTip910 | _ => VInvalid end;
      so_ed25519 := fun k m sg =>
        match assoc (fun a b => let '(a1, a2, a3) := a in let '(b1, b2, b3) := b in
                                 (a1 =? b1) && (a2 =? b2) && bytes_eqb a3 b3) (k, m, sg) (ot_ed t) with
